@@ -66,6 +66,8 @@ def _len(E, a, kw, fr, node):
             return SV(z3.Length(E.dkeys(c[1])), TInt)
         if c[0] == "obj":
             return call_method(E, v, "__len__", [], {}, fr, node)
+        if c[0] == "iter" and E.spec_mode:   # specifications speak of an iterator as the list of its remaining items
+            return SV(z3.Length(c[1][0].t) - c[1][1], TInt)
     if isinstance(v, RangeV):
         d = E.iter_desc(v, fr, node)
         return d.length if isinstance(d.length, int) else SV(d.length, TInt)
